@@ -31,6 +31,7 @@ import (
 	"os"
 	"runtime"
 	"strconv"
+	"strings"
 	"sync"
 	"sync/atomic"
 	"syscall"
@@ -230,6 +231,16 @@ var lsDeadCtx = func() context.Context {
 	return c
 }()
 
+// lsFmtArgs: the formatted entry points are called either as ("%s", msg) or - when the message has no
+// verb of its own - as (msg) with ZERO variadic arguments: same text, different path through a
+// formatting front end (a 'nothing to format' fast path must keep the level gate; seed C02-r10-3)
+func lsFmtArgs(op *lsOp) (string, []any) {
+	if op.Rid%2 == 0 && !strings.Contains(op.msg, "%") {
+		return op.msg, nil
+	}
+	return "%s", []any{op.msg}
+}
+
 func lsDoLog(n *lsNode, op *lsOp) {
 	defer func() { recover() }() // a panicking destination: the caller goes on
 	ctx := context.Background()
@@ -248,7 +259,8 @@ func lsDoLog(n *lsNode, op *lsOp) {
 	case "logattrs":
 		n.lg.LogAttrs(ctx, lv, op.msg, as...)
 	case "logf":
-		n.lg.Logf(ctx, lv, "%s", op.msg)
+		f, a := lsFmtArgs(op)
+		n.lg.Logf(ctx, lv, f, a...)
 	case "named":
 		switch lv {
 		case logger.LevelDebug:
@@ -270,24 +282,25 @@ func lsDoLog(n *lsNode, op *lsOp) {
 			n.lg.Log(ctx, lv, op.msg, drvAttrsAsArgs(as)...)
 		}
 	default: // namedf
+		f, a := lsFmtArgs(op)
 		switch lv {
 		case logger.LevelDebug:
-			n.lg.Debugf("%s", op.msg)
+			n.lg.Debugf(f, a...)
 		case logger.LevelInfo:
-			n.lg.Infof("%s", op.msg)
+			n.lg.Infof(f, a...)
 		case logger.LevelWarn:
-			n.lg.Warnf("%s", op.msg)
+			n.lg.Warnf(f, a...)
 		case logger.LevelError:
 			if len(op.msg)%2 == 0 {
-				n.lg.Errorf("%s", op.msg)
+				n.lg.Errorf(f, a...)
 			} else {
 				func() {
 					defer func() { recover() }()
-					n.lg.Panicf("%s", op.msg)
+					n.lg.Panicf(f, a...)
 				}()
 			}
 		default:
-			n.lg.Logf(ctx, lv, "%s", op.msg)
+			n.lg.Logf(ctx, lv, f, a...)
 		}
 	}
 }
